@@ -35,17 +35,17 @@ theorem C11_timers_len_eq_inflight (m bufCap tcap : Nat) (coupled : Bool) (ops :
   exact h.t.len_eq h.i.inNodup
 
 /-- **C11 (2b), every entry has its timer.**  After every op each in-flight entry's `timerKey` is the key of an
-armed timer (in the wheel or on the `expired` stack) whose value is the entry's request id, and that timer is not
-armed before the entry's deadline — or, the armed timeout being clamped (`clampTimeout`), not before the clamp
-`clampNs`. -/
+armed timer (in the wheel or on the `expired` stack) whose value is the entry's request id, and that timer together
+with the entry's `remainder` (the part of a far-away deadline not armed yet, re-armed when the timer fires) reaches
+the entry's deadline; with `remainder = 0` — always the case for deadlines within the clamp — the timer is not armed
+before the deadline. -/
 theorem C11_entry_has_timer (m bufCap tcap : Nat) (coupled : Bool) (ops : List COp)
     (s : St) (hs : s = (ops.foldl applyOp (initSys m bufCap tcap coupled)).s) (en : Entry) (hen : en ∈ s.inflight) :
     ∃ d ∈ s.timers.entries ++ s.timers.expired,
-      d.key = en.timerKey ∧ d.val = en.id ∧
-      (en.ctx.deadline ≤ d.whenMs * nsPerMs ∨ (Gen.clientTimerClampSecs ≠ 0 ∧ clampNs ≤ d.whenMs * nsPerMs)) := by
+      d.key = en.timerKey ∧ d.val = en.id ∧ en.ctx.deadline ≤ d.whenMs * nsPerMs + en.remainder := by
   subst hs
   obtain ⟨w, ⟨d, hd, h1, h2, h3⟩, hw⟩ := (inv_reach m bufCap tcap coupled ops).t.e2t en hen
-  exact ⟨d, hd, h1, h2, by rw [h3]; exact (dueAt_le_iff _ _).mp hw⟩
+  exact ⟨d, hd, h1, h2, by rw [h3]; exact hw⟩
 
 /-- **C11 (2c), every timer has its entry.**  After every op each armed timer belongs to an in-flight entry
 (same key, value = the entry's request id): no timer is leaked. -/
